@@ -70,7 +70,7 @@ Fixpoint sd (ke : keyenv) (A : assets) (m : ms) : list wit * list wit :=
   | MDupIf x => (map (cons [1%N]) (fst (sd ke A x)), [[[]]])
   | MVerify x => (fst (sd ke A x), [])
   | MNonZero x => (fst (sd ke A x), [[[]]])
-  | MAndV x y => let (sx, _) := sd ke A x in let (sy, dy) := sd ke A y in (cross sx sy, [])
+  | MAndV x y => let (sx, _) := sd ke A x in let (sy, dy) := sd ke A y in (cross sx sy, cross sx dy)   (* dsat: non-canonical, used by the library *)
   | MAndB x y =>
     let (sx, dx) := sd ke A x in let (sy, dy) := sd ke A y in (cross sx sy, cross dx dy)
   | MAndOr a b c =>
